@@ -64,8 +64,7 @@ func init() {
 				continue
 			}
 			if a.ReadErr != "" || a.Par == nil {
-				r.Violate("c05", rec.Text+"|read", "tables emitted with -a are unreadable: "+a.ReadErr+"\n  grammar: "+oneLine(rec.Text), map[string]any{"grammar": rec.Text})
-				continue
+				ev.Inconsistent("table reader cannot read the tables emitted with -a: %s\n%s", a.ReadErr, rec.Text)
 			}
 			cands = append(cands, rec)
 			tab := mc.NewReadTable(a.Par, a.Tok.TypeMap)
